@@ -13,7 +13,7 @@ from checks import common as c
 GRID = 6.25e9
 F0 = 193.1e12
 
-PROFILES = ['C', 'Cn', 'Cd', 'L', 'CL', 'CLr', 'CLm', 'auto']
+PROFILES = ['C', 'Cn', 'Cd', 'L', 'CL', 'CLr', 'CLc', 'CLm', 'auto']
 
 
 def mb(variety, amps):
@@ -31,6 +31,8 @@ def chain(profile, length):
                        {'type': 'Multiband_amplifier', 'type_variety': 'std_low_gain_multiband'}),
         'CLr': lambda: (mb('std_low_gain_multiband', ['std_low_gain', 'std_low_gain_L']),
                         mb('std_low_gain_multiband_reduced_bis', ['std_low_gain_bis', 'std_low_gain_L_reduced_band'])),
+        'CLc': lambda: (mb('std_low_gain_multiband', ['std_low_gain', 'std_low_gain_L']),
+                        mb('mb_reducedC', ['std_low_gain_reduced_band', 'std_low_gain_L'])),
         'CLm': lambda: (mb('std_medium_gain_multiband', ['std_medium_gain_C', 'std_medium_gain_L']),
                         mb('std_low_gain_multiband', ['std_low_gain', 'std_low_gain_L'])),
     }
@@ -57,6 +59,14 @@ def build(case):
     cband = [{'f_min': 191.3e12, 'f_max': 195.1e12, 'spacing': 50e9}]
     rp = {s: {'params': {'design_bands': cband}} for s in sites}
     return c.build_topology(sites, ls, roadm_params=rp)
+
+
+def library():
+    eq = c.eqpt_json('eqpt_config_multiband.json')
+    # a C+L model whose *upper* band is narrower (the shipped library only has a narrower lower band)
+    eq['Edfa'].append({'type_variety': 'mb_reducedC', 'type_def': 'multi_band',
+                       'amplifiers': ['std_low_gain_reduced_band', 'std_low_gain_L'], 'allowed_for_design': False})
+    return eq
 
 
 def expected_common(el_list, equipment):
@@ -97,7 +107,7 @@ def check_network(case):
     def v(fp, what):
         viol.append(dict(fingerprint=fp, what=what))
     topo = build(case)
-    eq = c.eqpt_json('eqpt_config_multiband.json')
+    eq = library()
     try:
         net, equipment, _, _ = c.design(topo, eq)
     except (ConfigurationError, NetworkTopologyError, EquipmentConfigError) as exc:
@@ -290,7 +300,7 @@ def main(rep, tier, seed):
         plan.append(('P3', [tuple(x[f'o{i}'] for i in range(4)) for x in sp.enumerate(3)]))
         sp6 = engine.Space({f'o{i}': ['C'] + [p for p in profs if p != 'C'] for i in range(6)})
         plan.append(('TRI', [tuple(x[f'o{i}'] for i in range(6)) for x in sp6.enumerate(2)]))
-        bound = 'P2: all 8^2 profile pairs; P3: <=3 deviations from a uniform base; triangle: <=2 deviations'
+        bound = 'P2: all 9^2 profile pairs; P3: <=3 deviations from a uniform base; triangle: <=2 deviations'
     else:
         profs = PROFILES
         plan.append(('P2', list(itertools.product(profs, repeat=2))))
@@ -298,7 +308,7 @@ def main(rep, tier, seed):
         sp6 = engine.Space({f'o{i}': ['C'] + [p for p in profs if p != 'C'] for i in range(6)},
                            bases=[{}, {f'o{i}': 'CL' for i in range(6)}])
         plan.append(('TRI', [tuple(x[f'o{i}'] for i in range(6)) for x in sp6.enumerate(3)]))
-        bound = 'P2: all 8^2; P3: all 8^4; triangle: <=3 deviations from all-C and all-CL'
+        bound = 'P2: all 9^2; P3: all 9^4; triangle: <=3 deviations from all-C and all-CL'
     for t, lst in plan:
         for p in lst:
             cases.append({'kind': 'net', 'topo': t, 'profiles': list(p)})
@@ -318,7 +328,7 @@ def main(rep, tier, seed):
     rep.cov['exhaustive'] = not stats['budget_hit'] and len(results) == len(cases)
     rep.cov['rule'] = (
         f'(a) {n_net} designed micro networks (P2/P3/triangle, eqpt_config_multiband library) with every listed assignment '
-        'of amplifier band profiles {C, C narrow preamp, C default-band, L, C+L, C+L reduced L, C+L medium/low mix, '
+        'of amplifier band profiles {C, C narrow preamp, C default-band, L, C+L, C+L reduced L, C+L reduced C, C+L medium/low mix, '
         'auto-designed} to the OMS; real designed_network + build_oms_list; oracle: graph walk + independent band '
         'intersection. (b) align_grids on every 2-/3-set of bitmaps from a grid of extents (nested, overlapping, disjoint, '
         'identical) with pre-existing OCCUPIED/UNUSABLE marks. Non-trivial: OMS of one network differ in common band / '
